@@ -32,6 +32,9 @@ class EFLRSet(LogicalRecord):
         self._set_type_struct = write_struct_ident(self.set_type)  # used in the header
         self._eflr_item_list: list[EFLRItem] = []  # instances of EFLRItem registered with this EFLRSet instance
 
+        #: all sets of this type (mapped by set name) in the structure this set is registered in - if any
+        self.sets_of_same_type: Optional[dict] = None
+
     def __str__(self) -> str:
         """Represent the EFLRSet instance as str."""
 
@@ -93,6 +96,13 @@ class EFLRSet(LogicalRecord):
         """Return a list of all EFLRItem instances registered with this EFLRSet instance."""
 
         return self._eflr_item_list[:]  # copy
+
+    def get_all_eflr_items_of_same_type(self) -> list[EFLRItem]:
+        """Return a list of all EFLRItem instances registered with this EFLRSet or another set of the same type."""
+
+        if not self.sets_of_same_type:
+            return self.get_all_eflr_items()
+        return [item for eflr_set in self.sets_of_same_type.values() for item in eflr_set.get_all_eflr_items()]
 
     @property
     def n_items(self) -> int:
